@@ -664,6 +664,80 @@ for _i in range(1, 21):
     rule(_p)(_make_revalidate(_p))
 
 
+# ------------------------------------------------------------------------------------------------ per-instance state is per instance
+
+# class-level containers that instance methods write to on purpose: (class, attribute) -> reason
+SHAREDSTATE_REVIEWED = {
+    ("_GregorianYearMonthDayCalculator", "__MONTH_START_DAYS"): "filled in __init__ with values that depend on nothing but the constants of the class: every instance writes the same table",
+    ("_GregorianYearMonthDayCalculator", "__YEAR_START_DAYS"): "as above",
+}
+
+
+def shared_mutable_state(ctx: Ctx, files: set[str] | None):
+    """Containers created in a CLASS body ({} / [] / set() / dict() / list()) and written through `self` in a method: every
+    instance writes into the one object, so what one instance caches (a zone under an id, a parsed pattern under its text) is
+    served to every other instance - results then depend on which other objects were used before.  Writes through `cls` are the
+    deliberate process-wide registries and are decided elsewhere (R13.4)."""
+    M = ctx.M
+    mut_ops = ("append", "extend", "insert", "add", "update", "pop", "remove", "clear", "setdefault")
+    for lst in M.classes.values():
+        for c in lst:
+            if "_compatibility" in c.mod.rel or not c.mod.rel.startswith("pyoda_time/") or (files is not None and c.mod.rel not in files):
+                continue
+            cl: dict[str, ast.stmt] = {}
+            for s_ in c.node.body:
+                tg, v = None, None
+                if isinstance(s_, ast.Assign) and len(s_.targets) == 1 and isinstance(s_.targets[0], ast.Name):
+                    tg, v = s_.targets[0].id, s_.value
+                if isinstance(s_, ast.AnnAssign) and isinstance(s_.target, ast.Name) and s_.value is not None:
+                    tg, v = s_.target.id, s_.value
+                if tg and (isinstance(v, (ast.Dict, ast.List, ast.Set)) or isinstance(v, ast.Call) and unparse(v.func) in ("dict", "list", "set", "defaultdict", "collections.defaultdict", "OrderedDict")):
+                    cl[tg] = s_
+            for name, st in sorted(cl.items()):
+                writers = []
+                for g in c.all_defs:
+                    if isinstance(g.node, ast.Lambda):
+                        continue
+                    for n in own_nodes(g.node):
+                        a = None
+                        if isinstance(n, ast.Call) and isinstance(n.func, ast.Attribute) and n.func.attr in mut_ops and isinstance(n.func.value, ast.Attribute):
+                            a = n.func.value
+                        if isinstance(n, (ast.Assign, ast.AugAssign)):
+                            for t in (n.targets if isinstance(n, ast.Assign) else [n.target]):
+                                if isinstance(t, ast.Subscript) and isinstance(t.value, ast.Attribute):
+                                    a = t.value
+                        if a is not None and isinstance(a.value, ast.Name) and a.value.id == "self" and a.attr == name:
+                            writers.append((g, n))
+                yield c, name, st, writers if (c.name, name) not in SHAREDSTATE_REVIEWED else []
+
+
+def _make_sharedstate(prop: str):
+    def r_sharedstate(ctx: Ctx) -> RuleResult:
+        rr = RuleResult(f"R{prop[1:]}.sharedstate", "no container created in a class body is written through `self` (per-instance caches and maps are created per instance; two reviewed tables)", min_instances=0)
+        if "sharedstate_total" not in ctx.cache:
+            ctx.cache["sharedstate_total"] = sum(1 for _ in shared_mutable_state(ctx, None))
+        if ctx.cache["sharedstate_total"] < 5:
+            from ..model import AnalysisError
+
+            raise AnalysisError(f"class-level container enumerator finds only {ctx.cache['sharedstate_total']} containers in the whole package")
+        for c, name, st, writers in shared_mutable_state(ctx, anchor_scope(ctx, prop)):
+            rr.inst(nontrivial=False)
+            if writers:
+                g, n = writers[0]
+                rr.fail(c.qual, f"`{name}` is created once in the class body but {g.qual} writes to it through `self` (`{unparse(n)[:60]}`): all instances of {c.name} share what each of them stores", ctx.loc(g, n))
+            else:
+                rr.ok()
+        return rr
+
+    r_sharedstate.__name__ = f"r{prop[1:]}_sharedstate"
+    return r_sharedstate
+
+
+for _i in range(1, 21):
+    _p = f"C{_i:02d}"
+    rule(_p)(_make_sharedstate(_p))
+
+
 # ------------------------------------------------------------------------------------------------ rules shared between properties
 
 # A change made to break one property often does so through a mechanism whose home is a neighbouring property; the home rule is then
@@ -683,7 +757,7 @@ SHARED = {
     "C15": [("c03", "r03_11_trusted_instants"), ("c02", "r02_5_leap_decisions"), ("c03", "r03_15_duration_truncated_views"), ("c01", "r01_14_gregorian_fast_tables")],
     "C14": [("c03", "r03_14_tick_arithmetic")],
     "C07": [("c08", "r08_7_embedded_fields"), ("c17", "r17_8_variable_precision_predicates"), ("c08", "r08_10_field_set_tests"), ("c17", "r17_7_sign_predicates")],
-    "C05": [("c01", "r01_cfp_calendar_free_productions"), ("c04", "r04_12_cache_periods_stay_in_range")],
+    "C05": [("c01", "r01_cfp_calendar_free_productions"), ("c04", "r04_12_cache_periods_stay_in_range"), ("c13", "r13_2_zone_interval_cache")],
     "C10": [("c03", "r03_6_rounding_helpers_exact")],
     "C13": [("c01", "r01_2_registry")],
     "C19": [("c13", "r13_2_zone_interval_cache")],
